@@ -287,14 +287,14 @@ pub fn check_resolve(tzarg: &TzArg, local: bool, dirs: &[&str], reads: &[ReadRec
                 return c;
             }
             match tzarg {
-                TzArg::Desc { spec, lpad, rpad, .. } if !local => {
+                TzArg::Desc { spec, lpad, rpad, style } if !local => {
                     let pads_ascii = lpad.bytes().chain(rpad.bytes()).all(is_ascii_ws);
-                    let expected: Option<TimeZone> = if !pads_ascii || spec.needs_extensions() || !spec.printable() {
+                    let expected: Option<TimeZone> = if !pads_ascii || spec.needs_extensions_styled(*style) || !spec.printable() {
                         if !pads_ascii {
                             c.probes.push("non_ascii_whitespace_not_trimmed");
                         }
-                        if spec.needs_extensions() {
-                            c.probes.push("extension_only_description");
+                        if spec.needs_extensions_styled(*style) {
+                            c.probes.push(if spec.needs_extensions() { "extension_only_description" } else { "extension_only_syntax_signed_rule_time" });
                         }
                         None
                     } else {
